@@ -19,7 +19,7 @@ from qce_circuit.structure.intrf_registry import (
     IRegistry,
     IRegistryGetter,
 )
-from qce_circuit.structure.intrf_circuit_operation import ICircuitOperation
+from qce_circuit.structure.intrf_circuit_operation import ICircuitOperation, RelationLink, MultiRelationLink
 
 
 TRegistryKey = str
@@ -100,9 +100,13 @@ def temporary_override_get_registry_at(temp_registry: Dict[GlobalRegistryKey, fl
 
     try:
         GlobalDurationRegistry.get_registry_at = temp_get_registry_at
+        RelationLink.get_start_time.cache_clear()
+        MultiRelationLink.get_start_time.cache_clear()
         yield
     finally:
         GlobalDurationRegistry.get_registry_at = original_method
+        RelationLink.get_start_time.cache_clear()
+        MultiRelationLink.get_start_time.cache_clear()
 
 
 class DurationRegistry(IRegistry[TRegistryKey, float]):
@@ -128,6 +132,8 @@ class DurationRegistry(IRegistry[TRegistryKey, float]):
         :param value: The duration value to be associated with the key.
         """
         self._variable_durations[key] = value
+        RelationLink.get_start_time.cache_clear()
+        MultiRelationLink.get_start_time.cache_clear()
 
     def get_registry_at(self, key: TRegistryKey) -> float:
         """
